@@ -1,9 +1,14 @@
 """C03 — Inferred static types equal the types values have at run time.
 
 Theorems: lean/Tranp/Props/C03.lean over lean/Tranp/Model/{Ty,Infer,PyEval}.lean and the table
-lean/Tranp/Generated/Dunder.lean (translated on every run from compatible/libralies/classes.py by translate/gen_dunder.py).
+lean/Tranp/Generated/Dunder.lean (translated on every run from compatible/libralies/classes.py by translate/gen_dunder.py) and
+lean/Tranp/Generated/InferShape.lean (operator token lists, attrs indexes and the statement shape of try_operation / each_binary_operator /
+on_spread, by translate/gen_infer_shape.py).
 Tie: stream `infer` (real `Reflections.type_of(node).pretty` vs the model's `infer`, well-typed / ill-typed / heterogeneous-list
-sessions), stream `pytype` (CPython `describe(type(eval(e)))` vs the model's `typeOf ∘ eval`; no tranp involved).
+sessions), stream `infer-programs` (whole function bodies over user classes), stream `infer-operators` (binary operators on instances of
+user classes: lean/Tranp/Model/InferOps.lean `foldBinAny` = try_operation incl. its `inherits` loop + each_binary_operator), stream
+`infer-spread` (`onSpread`), stream `pytype` (CPython `describe(type(eval(e)))` vs the model's `typeOf ∘ eval`; no tranp involved).
+Every real call runs under a CPU-time budget (cpu_budget), every stream and search under a wall deadline whose cuts are counted.
 Search (real code only): generated whole programs run under CPython with a recorder around every declaration and a sample
 of sub-expressions; `describe(type(v))` is compared with `type_of` of the node at the same source span.
 """
@@ -810,6 +815,8 @@ STATEMENTS: dict[str, str] = {
 	'user_operator_counterexample': 'known finding operator-operand-indirect-subclass: the full sentence (y of ANY descendant of P: user_operator_statement) is false on the code — nu + b2 with Big2(Big(Num)) is typed Big, CPython: Num (corpus witness 44)',
 	'user_operator_step / user_chain_type': 'a flat chain x op1 y op2 z … over instances of user classes, every step within the decidable form (directOk) of the hypotheses above: each_binary_operator (left to right, the previous RESULT as receiver) answers the type CPython\'s left-nested evaluation dispatches to (induction on the chain)',
 	'user_operator_repaired': 'on the model of try_operation with proposed/C03-operator-operand-indirect-subclass.diff applied (all ancestors of the operand compared) the FULL sentence user_operator_statement holds: an operand of any descendant class is typed by the left operand\'s method',
+	'shape_operators': 'BOp.arith / BOp.selects of the model are exactly the literal operator lists of Operations.arthmetical (accessible.py) and of try_operation (traits.py), read from the source by translate/gen_infer_shape.py on every run, for every operator token; the translator pins the statement sequence of try_operation and each_binary_operator (another shape = broken tie)',
+	'shape_attr_indexes': 'the attrs positions the handlers read (on_spread 0, on_indexer 0 / 1, IteratorTrait.iterates 0 — generated from the source) are the ones onSpread / onIndex use',
 	'spread_items / sound_spread': 'on_spread (first type argument) equals the loop-variable type iterates answers for a list, a dict (keys) and Iterator<T> sources, for EVERY element type; hence the items CPython spreads conform to it (through sound_iter)',
 	'spread_tuple_counterexample': 'known finding spread-first-type-argument: for t = (1, "a") : tuple[int, str] on_spread answers int, CPython spreads a str too',
 	'list_literal_counterexample': 'known finding list-literal-class-dedup: [[None], [1]] is typed list<list<int>> (outside Core)',
@@ -826,6 +833,7 @@ PARTIAL = {
 		'literals, variables, unary/binary operators, comparisons, and/or/not, ternary, subscripts, slices, groups, list/dict comprehensions: soundness and totality on the model, by induction on expressions; '
 		'session independence for all expressions; template substitution of list.pop for all element types',
 	'correspondence_only': 'that the model IS the code: ProceduralResolver handlers, try_operation, TemplateManipulator path matching (stream infer, shared sessions = history), try_operation / each_binary_operator on user classes (stream infer-operators), on_spread (stream infer-spread), member lookup through the inheritance chain, on_relay, constructors, IteratorTrait, declaration typing of whole function bodies (stream infer-programs); CPython semantics of the core (stream pytype)',
+	'modelled_separately': 'operators on instances of user classes and spread items are modelled beside the expression model (Model/InferOps.lean: foldBinAny, onSpread; streams infer-operators, infer-spread), not as constructors of Expr: sound_conf does not range over them, user_operator_* / user_chain_type / spread_* do',
 	'search_only': 'that the class-scope visibility rule equals CPython\'s scoping (LEGB) — the Lean side states the rule on C08\'s Scope model and checks it on the nested-class program, the equality with CPython is exhibited by the recorder search (shadowing through nested classes); diamond-shaped hierarchies (chainOf is the depth-first walk of the code, not C3), Enum, user generic classes and functions incl. attributes typed by a type variable read on descendants (generic_chain_block; two known findings for METHODS there) (the template port is proved for stub methods; the position rule of 68f934e is checked on examples), nested classes, imports, resolve_unknown laziness, while/try/with, augmented and attribute assignments',
 	'assumed_of_callees (sound_lambda_param)': 'a callee applies a callback declared Callable[[A...], R] to values of the types A (hypothesis ArgsConf; the typing obligation of the callee body, exhibited by the recorder search which observes the parameters inside lambda bodies); discharged for immediate calls',
 	'assumed_of_user_code (user operators)': 'pyUserOpTy: an operator method returns a value of its declared type, and no class declares a REFLECTED method for class operands with another result type than the forward method (CPython asks a subclass operand first only through a reflected method); hierarchies are tree-shaped',
@@ -850,12 +858,13 @@ TRUSTED = [
 
 
 def run(ctx: Ctx) -> int:
-	from translate import gen_dunder
+	from translate import gen_dunder, gen_infer_shape
 	translate_ok, translate_msg = True, ''
-	try:
-		ctx.generated_tables.extend(gen_dunder.generate())
-	except Exception as e:  # noqa: BLE001 - the tie to classes.py is broken: reported by finish, never a silent success
-		translate_ok, translate_msg = False, f'{type(e).__name__}: {e}'
+	for gen in (gen_dunder, gen_infer_shape):
+		try:
+			ctx.generated_tables.extend(gen.generate())
+		except Exception as e:  # noqa: BLE001 - the tie to classes.py / to the handlers' constants is broken: reported by finish, never a silent success
+			translate_ok, translate_msg = False, (translate_msg + '; ' if translate_msg else '') + f'{gen.__name__}: {type(e).__name__}: {str(e)[:600]}'
 	proof = common.prove(ctx, PROP, leanchecker=ctx.thorough)
 	with ctx.timed('correspondence'):
 		streams = [stream_infer(ctx), stream_programs(ctx), stream_operators(ctx), stream_spread(ctx), stream_pytype(ctx)]
